@@ -73,9 +73,28 @@ TRollup ==
         /\ \A i \in 1..Len(Line.where) : Line.where[i] = Line.wantfamily
   /\ UNCHANGED vars
 
+\* rollup of several source families (days, hours) -- every target family of the target interval is judged: it holds
+\* the reference rollup of ALL source families whose timestamps it contains (each with its own base slot), every source
+\* file exactly once, whatever number of rollup jobs / passes / restarts brought them in; and nothing sits in a family
+\* that is not expected.  families: [want (segment/family), sources: [base, blocks]]; targetblocks / where: every block
+\* of the metric in the stores of the target interval and the family it was read from (file order).
+SourcesOf(list) == [sx \in 1..Len(list) |-> [base |-> list[sx].base, blocks |-> BlocksOf(list[sx].blocks)]]
+BlocksAt(list, where, want) ==
+  LET ix == SelectSeq([i \in 1..Len(list) |-> i], LAMBDA i : where[i] = want)
+  IN [j \in 1..Len(ix) |-> BlockOf(list[ix[j]])]
+\* (a predicate of the logged line only, compared with TRUE in the action: TLC evaluates it as an expression instead of
+\* unfolding the quantifiers as part of the next-state relation, which recurses once per cell pair)
+RollupMOK(ln) ==
+  /\ Len(ln.where) = Len(ln.targetblocks)
+  /\ \A fx \in 1..Len(ln.families) :
+       MultiRollupOK(SourcesOf(ln.families[fx].sources), types, ln.ratio,
+                     RefMerge(BlocksAt(ln.targetblocks, ln.where, ln.families[fx].want), types))
+  /\ \A wx \in 1..Len(ln.where) : \E fx \in 1..Len(ln.families) : ln.where[wx] = ln.families[fx].want
+TRollupM == Ev("RollupM") /\ RollupMOK(Line) = TRUE /\ UNCHANGED vars
+
 TNote == Ev("Note") /\ UNCHANGED vars
 
-TraceNext == TReset \/ TTypes \/ TFlush \/ TBefore \/ TAfter \/ TRollup \/ TNote
+TraceNext == TReset \/ TTypes \/ TFlush \/ TBefore \/ TAfter \/ TRollup \/ TRollupM \/ TNote
 TraceSpec == TraceInit /\ [][TraceNext]_tvars
 HighWater == TLCSet(1, IF l > TLCGet(1) THEN l ELSE TLCGet(1))
 TraceAccepted ==
